@@ -107,6 +107,10 @@ def check_case(case, ctx):
         if case.get("zero_grad"):
             xs, gs, fs = f.stationary_point(return_gradient_and_function_value=True)
             X.append(gs)           # the null gradient: a non-leaf point with an empty decomposition
+        if len(set(id(q) for q in parts)) != len(parts):
+            ctx.fail("two-declared-partitions-are-one-object", "two partitions declared separately (d = %r) are the same object: points "
+                     "decomposed along one would be tied to points decomposed along the other" % (case["ds"],))
+            return
         bs = None
         if case.get("blocksmooth"):
             from PEPit.functions import BlockSmoothConvexFunction
